@@ -68,11 +68,13 @@ func (r *ShallowUpdate) decodeUnshallowLine(line []byte) error {
 }
 
 func (r *ShallowUpdate) decodeLine(line, prefix []byte, expLen int) (plumbing.Hash, error) {
-	if len(line) != expLen {
+	// expLen is the length of a line that carries a SHA-1 id; Encode writes
+	// SHA-256 ids in full, which makes the line longer.
+	if len(line) != expLen && len(line) != expLen-sha1HexSize+sha256HexSize {
 		return plumbing.ZeroHash, fmt.Errorf("malformed %s%q", prefix, line)
 	}
 
-	raw := string(line[expLen-40 : expLen])
+	raw := string(line[expLen-sha1HexSize:])
 	return plumbing.NewHash(raw), nil
 }
 
